@@ -20,13 +20,13 @@ SAN = "clematis/engine/policy/sanitize.py:"
 
 # ---------------------------------------------------------------------------------------------- token truncation
 TRUNC_ENSURES = [
-    ("within-budget", "ntokens(result[0]) <= max(max_tokens, 0)"),
-    ("count-reported", "result[2] == ntokens(result[0])"),
-    ("truncated-flag", "result[1] == (max_tokens <= 0 or ntokens(s) > max_tokens)"),
-    ("unchanged-when-fits", "implies(max_tokens > 0 and ntokens(s) <= max_tokens, result[0] == s)"),
+    ("within-budget", "ws_tokens(result[0]) <= max(max_tokens, 0)"),
+    ("count-reported", "result[2] == ws_tokens(result[0])"),
+    ("truncated-flag", "result[1] == (max_tokens <= 0 or ws_tokens(s) > max_tokens)"),
+    ("unchanged-when-fits", "implies(max_tokens > 0 and ws_tokens(s) <= max_tokens, result[0] == s)"),
     ("empty-when-no-budget", "implies(max_tokens <= 0, result[0] == '')"),
     ("keeps-leading-tokens",
-     "implies(max_tokens > 0 and ntokens(s) > max_tokens, len(result[0].split()) == max_tokens and "
+     "implies(max_tokens > 0 and ws_tokens(s) > max_tokens, len(result[0].split()) == max_tokens and "
      "forall(i, 0 <= i < max_tokens, result[0].split()[i] == s.split()[i]))"),
 ]
 for _mod, _nm in ((DLG, "dialogue"), (LEG, "legacy")):
@@ -461,15 +461,15 @@ R.contract(
     types={"dialog_bundle": "Dyn", "plan": "Plan"},
     requires=[("dialog-bundle-as-assembled", "wf_dialog_bundle(dialog_bundle)"), ("op-kind-matches-class", KIND_MATCHES_CLASS)],
     ensures=[
-        ("utterance-within-resolved-budget", "ntokens(result[0]) <= max(max_tokens, 0)"),
+        ("utterance-within-resolved-budget", "ws_tokens(result[0]) <= max(max_tokens, 0)"),
         # the budget the function resolves: the first Speak op's max_tokens when it is set (non-zero), else the agent cap
         ("budget-is-speak-op-cap", "implies(" + SPEAK_CAP_SET + ", max_tokens == " + SPK + ".max_tokens)"),
         ("budget-falls-back-to-agent-cap", "implies(not " + SPEAK_CAP_SET + ", max_tokens == " + AGENT_TOKENS + ")"),
         ("speak-op-is-first-speak",
          "is_none(speak_op) == forall(i, 0 <= i < len(plan.ops), plan.ops[i].kind != 'Speak')"),
-        ("reported-token-count", "result[1]['tokens'] == ntokens(result[0])"),
-        ("truncated-flag", "result[1]['truncated'] == (max_tokens <= 0 or ntokens(utter) > max_tokens)"),
-        ("unchanged-when-fits", "implies(max_tokens > 0 and ntokens(utter) <= max_tokens, result[0] == utter)"),
+        ("reported-token-count", "result[1]['tokens'] == ws_tokens(result[0])"),
+        ("truncated-flag", "result[1]['truncated'] == (max_tokens <= 0 or ws_tokens(utter) > max_tokens)"),
+        ("unchanged-when-fits", "implies(max_tokens > 0 and ws_tokens(utter) <= max_tokens, result[0] == utter)"),
         ("snippet-count-reported", "result[1]['snippet_count'] == len(snippet_ids)"),
         ("plan-untouched", "seq_eq(plan.ops, old(plan.ops))"),
         ("pure-bundle-unchanged", "dyn_same(dialog_bundle, old(dialog_bundle))"),
